@@ -37,6 +37,7 @@ theorem inScope_of_b {c : Conn α} {l : Label α} (h : inScopeB c l = true) : In
   | wfail ex => trivial
   | sclose req retry => trivial
   | «end» => trivial
+  | evict _ _ => trivial
 
 theorem inScopeRun_of_b : ∀ (ls : List (Label α)) (c : Conn α), inScopeRunB c ls = true → InScopeRun c ls
   | [], _, _ => trivial
